@@ -30,6 +30,7 @@ type Config struct {
 	Workers    int
 	MaxPaths   int
 	Samples    int
+	Rewrites   map[string][][2]string
 	Trace      bool
 	Verbose    bool
 }
@@ -109,6 +110,7 @@ func (e *Engine) lookupMethod(t types.Type, m *types.Func) *ssa.Function {
 var replaceDirective = regexp.MustCompile(`(?m)^//verif:replace\s+(\S+)\s+(\S+)\s*$`)
 
 type harnessFiles struct {
+	rewritten  map[string][]byte // repo file -> mechanically rewritten source (both views)
 	overlay    map[string][]byte // virtual path -> content (SSA view)
 	nativeRepl map[string]string // virtual path -> real path (native replay view)
 	directives [][2]string
@@ -118,7 +120,26 @@ type harnessFiles struct {
 // collectHarness maps /verif/harness/<pkg>/*.go into the repo package directories.
 // *_sym.go: SSA view only; *_native.go and *_test.go: native replay only; others: both.
 func collectHarness(cfg Config) (*harnessFiles, error) {
-	hf := &harnessFiles{overlay: map[string][]byte{}, nativeRepl: map[string]string{}, pkgs: map[string]bool{}}
+	hf := &harnessFiles{overlay: map[string][]byte{}, nativeRepl: map[string]string{}, pkgs: map[string]bool{}, rewritten: map[string][]byte{}}
+	// source rewrites: the repository's own file, read from the current tree, with call sites of the
+	// environment (os.*, io.Copy, ...) mechanically redirected to harness functions
+	for rel, rules := range cfg.Rewrites {
+		path := filepath.Join(cfg.Repo, rel)
+		data, err := os.ReadFile(path)
+		if err != nil {
+			return nil, fmt.Errorf("rewrite: %v", err)
+		}
+		src := string(data)
+		for _, r := range rules {
+			re, err := regexp.Compile(r[0])
+			if err != nil {
+				return nil, fmt.Errorf("rewrite rule %q: %v", r[0], err)
+			}
+			src = re.ReplaceAllString(src, r[1])
+		}
+		hf.rewritten[path] = []byte(src)
+		hf.overlay[path] = []byte(src)
+	}
 	targets := map[string]string{"yqlib": filepath.Join(cfg.Repo, "pkg/yqlib"), "cmd": filepath.Join(cfg.Repo, "cmd")}
 	for sub, dst := range targets {
 		files, _ := filepath.Glob(filepath.Join(cfg.HarnessDir, sub, "*.go"))
